@@ -66,7 +66,9 @@ theorem cvInv_notifyAllCm {s : St} (h : CvInv s) : CvInv (notifyAllCm s) :=
 theorem cvInv_reindexStep {s : St} (h : CvInv s) : CvInv (reindexStep s) := by
   unfold reindexStep
   split
-  · exact ⟨h.l, Cv.ok_signal h.f, h.c, h.k, h.q⟩
+  · split
+    · exact ⟨h.l, Cv.ok_signal h.f, h.c, h.k, h.q⟩
+    · exact cvInv_congr h rfl rfl rfl rfl rfl
   · exact cvInv_congr h rfl rfl rfl rfl rfl
 
 theorem cvInv_errStep {cfg : Cfg} {s s1 : St} {e : ETail} {n : Option ETail} (h : CvInv s)
@@ -123,6 +125,7 @@ theorem cvInv_tickL {cfg : Cfg} {s s' : St} (hI : CvInv s) (h : tickL cfg s = so
   · cases h; exact cvInv_congr hI rfl rfl rfl rfl rfl
   · cases h; exact ⟨hI.l, Cv.ok_signal hI.f, hI.c, hI.k, hI.q⟩
   · cases h; exact cvInv_reindexStep (cvInv_congr hI rfl rfl rfl rfl rfl)
+  · cases h; exact cvInv_congr hI rfl rfl rfl rfl rfl
   · obtain ⟨⟨s1, n⟩, he, hs⟩ := map_some h
     subst hs
     exact cvInv_congr (cvInv_errStep hI he) rfl rfl rfl rfl rfl
@@ -248,6 +251,8 @@ theorem cvInv_killLogsSeq {cfg : Cfg} {s s' : St} (hI : CvInv s) (h : killLogsSe
   · obtain ⟨s1, h1, h⟩ := bind_some h
     have i1 := cvInv_seqEnactLoop _ hI h1
     have i3 := cvInv_seqProcessLoop (fuel s1) (cvInv_seqFlush0 i1)
+    split at h
+    · cases h
     obtain ⟨s4, h4, h⟩ := bind_some h
     have i4 := cvInv_seqEnactLoop _ i3 h4
     have i5 := cvInv_seqFlush0 i4
@@ -298,6 +303,12 @@ theorem cvInv_tickCm {s s' : St} {i : Nat} (hI : CvInv s) (h : tickCm s i = some
     · cases h
   · cases h
 
+theorem tickCg_some {cfg : Cfg} {s s' : St} (h : tickCg cfg s = some s') : tickC cfg s = some s' := by
+  unfold tickCg at h
+  split at h
+  · cases h
+  · exact h
+
 theorem cvInv_step {cfg : Cfg} {s s' : St} {a : Act} (hI : CvInv s) (h : step cfg s a = some s') :
     CvInv s' := by
   cases a with
@@ -305,7 +316,7 @@ theorem cvInv_step {cfg : Cfg} {s s' : St} {a : Act} (hI : CvInv s) (h : step cf
     cases t
     · exact cvInv_tickL hI h
     · exact cvInv_tickF hI h
-    · exact cvInv_tickC hI h
+    · exact cvInv_tickC hI (tickCg_some h)
     · exact cvInv_tickK hI h
     · exact cvInv_tickD hI h
   | cmTick i => exact cvInv_tickCm hI h
@@ -325,9 +336,7 @@ theorem cvInv_step {cfg : Cfg} {s s' : St} {a : Act} (hI : CvInv s) (h : step cf
     cases t
     · simp only [step] at h
       split at h
-      · split at h
-        · cases h; exact cvInv_congr hI rfl rfl rfl rfl rfl
-        · cases h
+      · split at h <;> first | (cases h; done) | (cases h; exact cvInv_congr hI rfl rfl rfl rfl rfl)
       · cases h
     all_goals
       simp only [step] at h
@@ -358,10 +367,50 @@ theorem cvInv_step {cfg : Cfg} {s s' : St} {a : Act} (hI : CvInv s) (h : step cf
     split at h
     · cases h; exact ⟨hI.l, hI.f, hI.c, hI.k, Cv.ok_signal hI.q⟩
     · cases h
+  | defer =>
+    simp only [step] at h
+    split at h
+    · split at h <;> first | (cases h; done) | (cases h; exact cvInv_congr hI rfl rfl rfl rfl rfl)
+    · cases h
+  | panic t =>
+    cases t <;> simp only [step] at h <;>
+      first | (cases h; done) | (split at h <;> first | (cases h; done) | (cases h; exact cvInv_congr hI rfl rfl rfl rfl rfl))
+  | iterHold | iterRelease | dropEnacted k | makeCycle =>
+    simp only [step] at h
+    split at h <;> first | (cases h; done) | (cases h; exact cvInv_congr hI rfl rfl rfl rfl rfl)
+  | lockTree | unlockTree =>
+    simp only [step] at h
+    cases h; exact cvInv_congr hI rfl rfl rfl rfl rfl
+  | grow k =>
+    simp only [step] at h
+    split at h
+    · cases h; exact cvInv_congr hI rfl rfl rfl rfl rfl
+    · split at h <;> first | (cases h; done) | (cases h; exact cvInv_congr hI rfl rfl rfl rfl rfl)
+    · cases h
 
 /-- generic induction principle: a step-invariant that holds initially holds in every reachable state -/
 theorem reachable_induction {cfg : Cfg} {n r : Nat} (P : St → Prop) (h0 : P (init cfg n r))
-    (hstep : ∀ s s' a, P s → step cfg s a = some s' → P s') : ∀ s, Reachable cfg n r s → P s := by
+    (hstep : ∀ s s' a, a.isPanic = false → P s → step cfg s a = some s' → P s') :
+    ∀ s, Reachable cfg n r s → P s := by
+  intro s ⟨as, hnp, h⟩
+  have : ∀ (as : List Act) (x : St), (∀ a ∈ as, a.isPanic = false) → P x → run cfg x as = some s → P s := by
+    intro as
+    induction as with
+    | nil => intro x _ hx h; simp [run] at h; subst h; exact hx
+    | cons a as ih =>
+      intro x hnp hx h
+      simp only [run] at h
+      cases hs : step cfg x a with
+      | none => rw [hs] at h; cases h
+      | some y =>
+        rw [hs] at h
+        exact ih y (fun b hb => hnp b (List.mem_cons_of_mem _ hb))
+          (hstep x y a (hnp a List.mem_cons_self) hx hs) h
+  exact this as _ hnp h0 h
+
+/-- the same for schedules with panics -/
+theorem reachableP_induction {cfg : Cfg} {n r : Nat} (P : St → Prop) (h0 : P (init cfg n r))
+    (hstep : ∀ s s' a, P s → step cfg s a = some s' → P s') : ∀ s, ReachableP cfg n r s → P s := by
   intro s ⟨as, h⟩
   have : ∀ (as : List Act) (x : St), P x → run cfg x as = some s → P s := by
     intro as
@@ -375,7 +424,14 @@ theorem reachable_induction {cfg : Cfg} {n r : Nat} (P : St → Prop) (h0 : P (i
       | some y => rw [hs] at h; exact ih y (hstep x y a hx hs) h
   exact this as _ h0 h
 
+theorem reachable_of_np {cfg : Cfg} {n r : Nat} {s : St} (h : Reachable cfg n r s) : ReachableP cfg n r s :=
+  let ⟨as, _, hr⟩ := h; ⟨as, hr⟩
+
+/-- the `WaitCondvar` protocol invariant does not depend on the absence of panics -/
+theorem cvInv_reachableP {cfg : Cfg} {n r : Nat} {s : St} (h : ReachableP cfg n r s) : CvInv s :=
+  reachableP_induction CvInv (cvInv_init cfg n r) (fun _ _ _ hI hs => cvInv_step hI hs) s h
+
 theorem cvInv_reachable {cfg : Cfg} {n r : Nat} {s : St} (h : Reachable cfg n r s) : CvInv s :=
-  reachable_induction CvInv (cvInv_init cfg n r) (fun _ _ _ hI hs => cvInv_step hI hs) s h
+  cvInv_reachableP (reachable_of_np h)
 
 end Pdb.Conc.Pipe
